@@ -143,6 +143,17 @@ def in_domain(g, op):
             if new in cur: return False
             cur.add(new)
         return True
+    if k == 'sp':
+        # precondition of split_column_repaired_preserves (Reach.split_pre): no neighbour holding the corner that
+        # leaves the column also holds the opposite corner -- such a neighbour shares three corners with the
+        # quadrilateral (it overlaps it) and borders BOTH halves, which one connection cannot express
+        col = g.column.get(op[1])
+        if col is None or len(col.node) != 4: return True
+        names = [n.name for n in col.node]
+        if op[2] not in names: return True
+        i0 = names.index(op[2])
+        n1, n3 = col.node[(i0 + 1) % 4], col.node[(i0 + 3) % 4]
+        return not any(n3 in c.node and n1 in c.node for c in col.neighbour)
     if k in L.COMPOUND: return L.conforming(g)      # the quantifier ranges over meshes: no overlapping columns
     return True
 
